@@ -28,7 +28,7 @@ for pid, (ref, text, note) in tier1.CLAIMS.items():
 def main():
     m = {"version": 1, "setup_cmd": "./setup.sh",
          "hooks": {"guard": "verif",
-                   "enable": "no hook file is compiled into garr and /repo is never modified: the checks copy the current working tree to a scratch directory under /verif/build, redirect sync/atomic, sync (for worker-pool also channels, select, go, context, time) to the cooperative scheduler of /verif/shim by import / syntax rewriting, and add small read-only accessor files (zz_verif_export.go: table limit, pre-grown table, pool counters, NumCPU, the configuration a breaker holds) to that copy only; the driver binaries and the Tier-2 harness are built with Go's coverage instrumentation (go build -cover) to record which blocks the model-validated runs executed; the Tier-2 harness reads unexported fields by reflection",
+                   "enable": "no hook file is compiled into garr and /repo is never modified: the checks copy the current working tree to a scratch directory under /verif/build, redirect sync/atomic, sync (for worker-pool also channels, select, go, context, time) to the cooperative scheduler of /verif/shim by import / syntax rewriting, and add small read-only accessor files (zz_verif_export.go: table limit, pre-grown table, pool counters, NumCPU, the configuration a breaker holds, bulk events into a window bucket) to that copy only; the driver binaries and the Tier-2 harness are built with Go's coverage instrumentation (go build -cover) to record which blocks the model-validated runs executed; the Tier-2 harness reads unexported fields by reflection",
                    "baseline_off_cmd": "cd /repo && GOFLAGS=-mod=mod GOPROXY=off GOSUMDB=off go test -vet=off -count=1 -timeout 25m ./...",
                    "source_commits": [], "add_only": True},
          "engines": [{"name": "check", "path": "check", "serves_properties": sorted(CLAIMS),
